@@ -3,6 +3,7 @@ package main
 // C09/capability-capture — the pattern that extracts the server's capabilities cannot run across an element boundary.
 
 import (
+	"fmt"
 	"regexp/syntax"
 
 	"golang.org/x/tools/go/ssa"
@@ -99,5 +100,53 @@ func checkCapabilityCapture(c *Ctx, r *Report) {
 		r.Bad(rule, "capability pattern", c.Pos(at.Pos()), "the capturing group repeats greedily over characters that include '<': when two <capability> elements follow each other without white space the match runs across the closing tag and merges them into one bogus capability (the base versions are then not found and a valid hello is rejected)")
 	} else {
 		r.OK(rule, "capability pattern", c.Pos(at.Pos()), "the capture is non-greedy or cannot contain '<': it ends at the first closing tag")
+	}
+}
+
+// checkSessionIDRange: the session-id of the hello is an unsigned 32-bit value (RFC 6241 session-id-type); the
+// conversion used must accept all of [1, 2^32): strconv.Atoi (64-bit int on the supported platforms),
+// ParseInt(_, 10, 0|64) or ParseUint(_, 10, 0|32|64). ParseInt with bit size 32 (or less) rejects the upper half.
+func checkSessionIDRange(c *Ctx, r *Report) {
+	rule := "C09/session-id-range"
+	fn := c.LookupFunc("driver/netconf", "Driver", "processServerCapabilities")
+	sid := c.LookupField("driver/netconf", "Driver", "sessionID")
+	if fn == nil || sid == nil {
+		r.Anchor(rule, "(*netconf.Driver).processServerCapabilities / Driver.sessionID")
+		return
+	}
+	n := 0
+	allInstrs(fn, func(in ssa.Instruction) {
+		call, ok := in.(*ssa.Call)
+		if !ok {
+			return
+		}
+		o := CalleeObj(call)
+		if o == nil || o.Pkg() == nil || o.Pkg().Path() != "strconv" {
+			return
+		}
+		construct := "session-id conversion in " + shortFn(fn)
+		switch o.Name() {
+		case "Atoi":
+			n++
+			r.OK(rule, construct, c.Pos(call.Pos()), "strconv.Atoi: int is 64 bits wide on the supported platforms")
+		case "ParseInt", "ParseUint":
+			n++
+			bits, ok := constInt(call.Call.Args[2])
+			base, okb := constInt(call.Call.Args[1])
+			signed := o.Name() == "ParseInt"
+			switch {
+			case !ok || !okb:
+				r.Unk(rule, construct, c.Pos(call.Pos()), "base / bit size is not a constant")
+			case base != 10 && base != 0:
+				r.Bad(rule, construct, c.Pos(call.Pos()), fmt.Sprintf("the session-id is parsed in base %d", base))
+			case (signed && bits != 0 && bits < 64 && bits <= 32) || (!signed && bits != 0 && bits < 32):
+				r.Bad(rule, construct, c.Pos(call.Pos()), fmt.Sprintf("strconv.%s with bit size %d does not cover the session-id range [1, 2^32): a hello with a session-id of 2^%d or more makes Open fail with 'value out of range' although the hello is well-formed", o.Name(), bits, map[bool]int64{true: bits - 1, false: bits}[signed]))
+			default:
+				r.OK(rule, construct, c.Pos(call.Pos()), fmt.Sprintf("strconv.%s(_, %d, %d) covers [0, 2^32)", o.Name(), base, bits))
+			}
+		}
+	})
+	if n == 0 {
+		r.Unk(rule, "session-id conversion", c.Pos(fn.Pos()), "no strconv conversion found in processServerCapabilities")
 	}
 }
